@@ -732,6 +732,26 @@ def build(tier, rng):
                 n_near = SLOW_NEAR if quick and "libpass." + nm in SLOW and len(pw) > 1000 else near
                 run_case(g_lib, st, "libpass." + nm, obj, {"_light": default_cost and quick}, label, pwname, pw, rng, n_near, verify=verify, hash_=hash_, identify=obj.identify, canon=canon, sig=sig)
 
+    # libpass PBKDF2 records with caller-supplied salts whose dot-variant base64 text contains '.' and '/' (generated salts never do)
+    try:
+        from libpass.hashers.pbkdf2 import PBKDF2SHA256Handler, PBKDF2SHA512Handler
+
+        for nm, cls in (("PBKDF2SHA256Handler", PBKDF2SHA256Handler), ("PBKDF2SHA512Handler", PBKDF2SHA512Handler)):
+            obj = cls(rounds=1)
+            for salt in (bytes(range(240, 256)), b"\xfb\xef\xbe" * 4, b"\xff" * 5, b"\xfb\xff", bytes(range(0, 48, 3))):
+                for pw in ("pw", "p\u00e4ss"):
+                    g_lib.case(("libpass." + nm, "supplied-salt", salt.hex(), pw))
+                    w = {"hasher": "libpass." + nm, "salt_hex": salt.hex(), "password": pw}
+                    try:
+                        hs = obj.hash(pw, salt=salt)
+                        for form in (hs, hs.encode()):
+                            ok, bad = obj.verify(form, pw), obj.verify(form, pw + "x")
+                            g_lib.check(ok is True, f"verify-own:libpass.{nm}:supplied-salt", f"verify(hash(pw, salt), pw) gave {ok!r} for a salt whose encoding contains '.' or '/'", dict(w, hash=hs))
+                            g_lib.check(bad is False, f"near-miss:libpass.{nm}:supplied-salt", "another password verifies", dict(w, hash=hs))
+                    except Exception as err:  # noqa: BLE001
+                        g_lib.fail(f"verify-own:libpass.{nm}:supplied-salt:raises", f"hash/verify raised {type(err).__name__}: {str(err)[:80]}", w)
+    except ImportError:
+        pass
     g_first = first_use_group(registry, skipped)
     groups = [g_reg, g_wrap, g_dis, g_lib]
     now = time.time()
